@@ -1,6 +1,390 @@
-(* C14 proofs *)
-From Coq Require Import ZArith QArith List Bool Arith Lia.
+(* C14 proofs, part 1: arrays (ravel / indices / tab / get), rotations, views of a game,
+   reconstruction, __setitem__, delete_action, GAM token round trip.  All for arbitrary element type. *)
+From Coq Require Import ZArith List Bool Arith Lia.
 From QE Require Import Base.Num C14.Model.
 Import ListNotations.
 
-Lemma size_nil : size [] = 1%nat. Proof. reflexivity. Qed.
+(* ------------------------------------------------------------------ lists *)
+Lemma flat_map_seq_blocks L : forall n s,
+  flat_map (fun i => seq (i * L) L) (seq s n) = seq (s * L) (n * L).
+Proof.
+  induction n; intros s; cbn [seq flat_map]; [reflexivity|].
+  rewrite IHn. replace (S n * L) with (L + n * L) by lia. rewrite seq_app. f_equal. f_equal. lia.
+Qed.
+
+Lemma map_add_seq s : forall L t, map (fun r => s + r) (seq t L) = seq (s + t) L.
+Proof. induction L; intros t; cbn; [reflexivity|]. f_equal. rewrite IHL. f_equal. lia. Qed.
+
+Lemma nth_flat_map_uniform {A} (g : nat -> list A) L dflt : (forall j, length (g j) = L) ->
+  forall n s i r, i < n -> r < L ->
+  nth (i * L + r) (flat_map g (seq s n)) dflt = nth r (g (s + i)) dflt.
+Proof.
+  intros HL. induction n; intros s i r Hi Hr; [lia|]. cbn [seq flat_map].
+  destruct i.
+  - cbn. rewrite app_nth1 by (rewrite HL; lia). now rewrite Nat.add_0_r.
+  - rewrite app_nth2 by (rewrite HL; lia). rewrite HL.
+    replace (S i * L + r - L) with (i * L + r) by lia.
+    rewrite IHn by lia. f_equal. f_equal. lia.
+Qed.
+
+Lemma map_nth_seq {A} (l : list A) d : map (fun p => nth p l d) (seq 0 (length l)) = l.
+Proof.
+  induction l; [reflexivity|]. cbn [length seq map]. f_equal.
+  rewrite <- seq_shift, map_map. exact IHl.
+Qed.
+
+Lemma nth_map_in {A B} (f : A -> B) l i d d' : i < length l -> nth i (map f l) d' = f (nth i l d).
+Proof. intros. rewrite nth_indep with (d' := f d) by (now rewrite map_length). apply map_nth. Qed.
+
+Lemma nth_map_seq {A} (f : nat -> A) n i d : i < n -> nth i (map f (seq 0 n)) d = f i.
+Proof. intros. rewrite nth_map_in with (d := 0) by (now rewrite seq_length). now rewrite seq_nth. Qed.
+
+Lemma map_seq_ext_nth {A} (l : list A) (f : nat -> A) d n :
+  length l = n -> (forall i, i < n -> nth i l d = f i) -> l = map f (seq 0 n).
+Proof.
+  intros Hl Hn. rewrite <- (map_nth_seq l d). rewrite Hl. apply map_ext_in. intros i Hi.
+  apply in_seq in Hi. apply Hn. lia.
+Qed.
+
+(* ------------------------------------------------------------------ shapes and indices *)
+Definition inr (sh idx : list nat) : Prop := Forall2 lt idx sh.
+
+Lemma inr_length sh idx : inr sh idx -> length idx = length sh.
+Proof. induction 1; cbn; congruence. Qed.
+
+Lemma length_indices sh : length (indices sh) = size sh.
+Proof.
+  induction sh as [|n sh IH]; [reflexivity|]. cbn [indices size fold_right].
+  change (fold_right Nat.mul 1 sh) with (size sh). rewrite <- IH.
+  generalize 0 as s. induction n; intros s; cbn [seq flat_map]; [reflexivity|].
+  rewrite app_length, map_length, IHn. reflexivity.
+Qed.
+
+Lemma ravel_lt sh idx : inr sh idx -> ravel sh idx < size sh.
+Proof.
+  induction 1 as [|i n idx sh Hi H IH]; cbn; [lia|].
+  change (fold_right Nat.mul 1 sh) with (size sh). nia.
+Qed.
+
+Lemma in_indices sh idx : In idx (indices sh) <-> inr sh idx.
+Proof.
+  revert idx. induction sh as [|n sh IH]; intros idx; cbn [indices].
+  - split; [intros [<-|[]]; constructor | intros H; inversion H; now left].
+  - rewrite in_flat_map. split.
+    + intros [i [Hi Hin]]. apply in_map_iff in Hin. destruct Hin as [t [<- Ht]].
+      apply in_seq in Hi. constructor; [lia|]. now apply IH.
+    + intros H. inversion H as [|i n' t sh' Hi Ht]; subst. exists i. split; [apply in_seq; lia|].
+      apply in_map. now apply IH.
+Qed.
+
+Lemma nth_indices sh : forall idx dflt, inr sh idx -> nth (ravel sh idx) (indices sh) dflt = idx.
+Proof.
+  induction sh as [|n sh IH]; intros idx dflt H; inversion H as [|i n' t sh' Hi Ht]; subst; [reflexivity|].
+  cbn [ravel indices].
+  rewrite nth_flat_map_uniform with (L := size sh).
+  - cbn [plus]. rewrite nth_map_in with (d := dflt) by (rewrite length_indices; now apply ravel_lt).
+    f_equal. now apply IH.
+  - intros j. now rewrite map_length, length_indices.
+  - assumption.
+  - now apply ravel_lt.
+Qed.
+
+Lemma map_ravel_indices sh : map (ravel sh) (indices sh) = seq 0 (size sh).
+Proof.
+  induction sh as [|n sh IH]; [reflexivity|]. cbn [indices size fold_right].
+  change (fold_right Nat.mul 1 sh) with (size sh).
+  pose proof (flat_map_seq_blocks (size sh) n 0) as E. cbn [Nat.mul] in E. rewrite <- E. clear E.
+  rewrite flat_map_concat_map, concat_map, map_map, <- flat_map_concat_map.
+  apply flat_map_ext. intros i. rewrite map_map. cbn [ravel].
+  rewrite <- (map_map (ravel sh) (fun r => i * size sh + r)), IH, map_add_seq. f_equal. lia.
+Qed.
+
+Section Arr.
+Context {T : Type}.
+Variable d : T.
+
+Definition wf (a : arr T) : Prop := length (adata a) = size (shape a).
+
+Lemma shape_tab sh (f : list nat -> T) : shape (tab sh f) = sh. Proof. reflexivity. Qed.
+Lemma wf_tab sh (f : list nat -> T) : wf (tab sh f).
+Proof. unfold wf, tab. cbn. now rewrite map_length, length_indices. Qed.
+
+Lemma get_tab sh (f : list nat -> T) idx : inr sh idx -> get d (tab sh f) idx = f idx.
+Proof.
+  intros H. unfold get, tab. cbn [shape adata fst snd].
+  rewrite nth_map_in with (d := []) by (rewrite length_indices; now apply ravel_lt).
+  f_equal. now apply nth_indices.
+Qed.
+
+Lemma tab_ext sh (f g : list nat -> T) : (forall idx, inr sh idx -> f idx = g idx) -> tab sh f = tab sh g.
+Proof. intros H. unfold tab. f_equal. apply map_ext_in. intros idx Hin. apply H. now apply in_indices. Qed.
+
+Lemma tab_get a : wf a -> tab (shape a) (get d a) = a.
+Proof.
+  destruct a as [sh dat]. unfold wf, tab, get. cbn [shape adata fst snd]. intros Hl. f_equal.
+  rewrite <- (map_map (ravel sh) (fun p => nth p dat d)), map_ravel_indices, <- Hl. apply map_nth_seq.
+Qed.
+
+Lemma arr_ext a b : wf a -> wf b -> shape a = shape b ->
+  (forall idx, inr (shape a) idx -> get d a idx = get d b idx) -> a = b.
+Proof.
+  intros Ha Hb Hs He. rewrite <- (tab_get a Ha), <- (tab_get b Hb), <- Hs. now apply tab_ext.
+Qed.
+End Arr.
+
+
+(* ------------------------------------------------------------------ rotations *)
+Lemma length_rotl {A} k (l : list A) : length (rotl k l) = length l.
+Proof.
+  unfold rotl. rewrite app_length, skipn_length, firstn_length. lia.
+Qed.
+
+Lemma rotl_0 {A} (l : list A) : rotl 0 l = l.
+Proof. unfold rotl. cbn. apply app_nil_r. Qed.
+
+Lemma skipn_app_exact {A} (x y : list A) k : length x = k -> skipn k (x ++ y) = y.
+Proof. intros <-. rewrite skipn_app, skipn_all, Nat.sub_diag. reflexivity. Qed.
+Lemma firstn_app_exact {A} (x y : list A) k : length x = k -> firstn k (x ++ y) = x.
+Proof. intros <-. rewrite firstn_app, firstn_all, Nat.sub_diag. cbn. apply app_nil_r. Qed.
+
+Lemma rotr_rotl {A} k (l : list A) : k <= length l -> rotr k (rotl k l) = l.
+Proof.
+  intros Hk. unfold rotr. rewrite length_rotl. unfold rotl.
+  rewrite skipn_app_exact, firstn_app_exact by (rewrite skipn_length; lia).
+  apply firstn_skipn.
+Qed.
+
+Lemma rotl_rotr {A} k (l : list A) : k <= length l -> rotl k (rotr k l) = l.
+Proof.
+  intros Hk. unfold rotr. unfold rotl. rewrite skipn_app_exact, firstn_app_exact by (rewrite skipn_length; lia).
+  apply firstn_skipn.
+Qed.
+
+Lemma rotl_compl {A} k (l : list A) : k <= length l -> rotl (length l - k) (rotl k l) = l.
+Proof. intros Hk. pose proof (rotr_rotl k l Hk) as E. unfold rotr in E. now rewrite length_rotl in E. Qed.
+
+Lemma rotr_compl {A} k (l : list A) : k <= length l -> rotr (length l - k) l = rotl k l.
+Proof. intros Hk. unfold rotr. f_equal. lia. Qed.
+
+Lemma inr_app sh1 sh2 a1 a2 : inr sh1 a1 -> inr sh2 a2 -> inr (sh1 ++ sh2) (a1 ++ a2).
+Proof. apply Forall2_app. Qed.
+
+Lemma inr_firstn sh a k : inr sh a -> inr (firstn k sh) (firstn k a).
+Proof. intros H. revert k. induction H; intros [|k]; cbn; constructor; auto. apply IHForall2. Qed.
+Lemma inr_skipn sh a k : inr sh a -> inr (skipn k sh) (skipn k a).
+Proof. intros H. revert k. induction H; intros [|k]; cbn; try (constructor; auto; fail). apply IHForall2. Qed.
+
+Lemma inr_rotl sh a k : inr sh a -> inr (rotl k sh) (rotl k a).
+Proof. intros H. unfold rotl. apply inr_app; [now apply inr_skipn | now apply inr_firstn]. Qed.
+Lemma inr_rotr sh a k : inr sh a -> inr (rotr k sh) (rotr k a).
+Proof. intros H. unfold rotr. rewrite (inr_length _ _ H). now apply inr_rotl. Qed.
+
+Lemma rotl_inj {A} k (a b : list A) : length a = length b -> k <= length a -> rotl k a = rotl k b -> a = b.
+Proof.
+  intros Hl Hk E. rewrite <- (rotr_rotl k a Hk), E. apply rotr_rotl. lia.
+Qed.
+
+Lemma removelast_snoc {A} (l : list A) x : removelast (l ++ [x]) = l.
+Proof. apply removelast_last. Qed.
+Lemma last_snoc {A} (l : list A) x dd : last (l ++ [x]) dd = x.
+Proof. apply last_last. Qed.
+
+Lemma inr_snoc_inv sh n idx : inr (sh ++ [n]) idx ->
+  exists a i, idx = a ++ [i] /\ inr sh a /\ i < n.
+Proof.
+  intros H. unfold inr in H. apply Forall2_app_inv_r in H.
+  destruct H as [a [t [Ha [Ht ->]]]]. inversion Ht as [|i n' t' s' Hi Hn]; subst. inversion Hn; subst.
+  exists a, i. auto.
+Qed.
+
+Lemma nats_eq_iff a b : nats_eq a b = true <-> a = b.
+Proof.
+  revert b. induction a as [|x a IH]; intros [|y b]; cbn; split; intros H; try discriminate; auto.
+  - apply andb_true_iff in H. destruct H as [H1 H2]. apply Nat.eqb_eq in H1. apply IH in H2. congruence.
+  - injection H as -> ->. rewrite Nat.eqb_refl. cbn. now apply IH.
+Qed.
+
+(* ------------------------------------------------------------------ games *)
+Section Game.
+Context {T : Type}.
+Variable d : T.
+
+(* g is a well-formed game with action counts nums: player i's array has the i-fold rotated shape *)
+Definition consistent (g : game T) (nums : list nat) : Prop :=
+  length g = length nums /\ 0 < length nums /\
+  forall i, i < length nums -> shape (player g i) = rotl i nums /\ wf (player g i).
+
+(* payoff of player i at profile a, read from the player's own array *)
+Definition payoff (g : game T) (a : list nat) (i : nat) : T := get d (player g i) (rotl i a).
+
+Lemma player_map (f : nat -> arr T) n i : i < n -> player (map f (seq 0 n)) i = f i.
+Proof. intros. unfold player. now apply nth_map_seq. Qed.
+
+Lemma game_ext (g : game T) (f : nat -> arr T) n :
+  length g = n -> (forall i, i < n -> player g i = f i) -> g = map f (seq 0 n).
+Proof. intros. now apply map_seq_ext_nth with (d := dummy). Qed.
+
+Lemma get_transpose_cyc k (a : arr T) b : k <= length (shape a) -> inr (rotl k (shape a)) b ->
+  get d (transpose_cyc d k a) b = get d a (rotr k b).
+Proof. intros Hk H. unfold transpose_cyc. now rewrite get_tab. Qed.
+
+Lemma get_take_last i (a : arr T) b : inr (removelast (shape a)) b ->
+  get d (take_last d i a) b = get d a (b ++ [i]).
+Proof. intros H. unfold take_last. now rewrite get_tab. Qed.
+
+Section FromProfile.
+Variables (prof : arr T) (nums : list nat).
+Hypothesis Hshape : shape prof = nums ++ [length nums].
+Hypothesis Hpos : 0 < length nums.
+
+Lemma players_of_profile_some :
+  players_of_profile d prof =
+  Some (map (fun i => transpose_cyc d i (take_last d i prof)) (seq 0 (length nums))).
+Proof.
+  unfold players_of_profile. rewrite Hshape, app_length, last_snoc. cbn [length].
+  replace (length nums + 1 - 1) with (length nums) by lia.
+  rewrite Nat.eqb_refl. cbn [negb orb].
+  destruct (Nat.eqb_spec (length nums) 0); [lia|reflexivity].
+Qed.
+
+Let g := map (fun i => transpose_cyc d i (take_last d i prof)) (seq 0 (length nums)).
+
+Lemma from_profile_consistent : consistent g nums.
+Proof.
+  unfold consistent, g. rewrite map_length, seq_length. repeat split; auto.
+  - rewrite player_map by auto. unfold transpose_cyc, take_last. cbn [shape tab fst].
+    now rewrite Hshape, removelast_snoc.
+  - rewrite player_map by auto. apply wf_tab.
+Qed.
+
+Lemma from_profile_payoff a i : inr nums a -> i < length nums ->
+  payoff g a i = get d prof (a ++ [i]).
+Proof.
+  intros Ha Hi. unfold payoff, g. rewrite player_map by auto.
+  assert (Hs : shape (take_last d i prof) = nums)
+    by (unfold take_last; cbn [shape tab fst]; now rewrite Hshape, removelast_snoc).
+  rewrite get_transpose_cyc.
+  - rewrite rotr_rotl by (rewrite (inr_length _ _ Ha); lia).
+    apply get_take_last. now rewrite Hshape, removelast_snoc.
+  - rewrite Hs. lia.
+  - rewrite Hs. now apply inr_rotl.
+Qed.
+End FromProfile.
+
+Section Views.
+Variables (g : game T) (nums : list nat).
+Hypothesis Hc : consistent g nums.
+
+Lemma consistent_shape0 : shape (player g 0) = nums.
+Proof. destruct Hc as [_ [Hp H]]. destruct (H 0 Hp) as [E _]. now rewrite rotl_0 in E. Qed.
+
+Lemma getitem_nth a i : i < length nums -> nth i (nfg_getitem d g a) d = payoff g a i.
+Proof.
+  intros Hi. unfold nfg_getitem. destruct Hc as [Hl _]. rewrite Hl. now rewrite nth_map_seq.
+Qed.
+
+Lemma profile_array_get a i : inr nums a -> i < length nums ->
+  get d (profile_of_players d g) (a ++ [i]) = payoff g a i.
+Proof.
+  intros Ha Hi. destruct Hc as [Hl [Hp H]]. unfold profile_of_players.
+  rewrite consistent_shape0, Hl.
+  rewrite get_tab by (apply inr_app; [assumption | repeat constructor; assumption]).
+  rewrite last_snoc, removelast_snoc. rewrite nth_map_seq by assumption.
+  destruct (H i Hi) as [Es _].
+  assert (HN : length a = length nums) by now apply inr_length.
+  rewrite get_transpose_cyc.
+  - unfold payoff. f_equal. rewrite <- HN. apply rotr_compl. lia.
+  - rewrite Es, length_rotl. lia.
+  - rewrite Es. rewrite rotl_compl by lia. assumption.
+Qed.
+
+Lemma profile_array_shape : shape (profile_of_players d g) = nums ++ [length nums].
+Proof. unfold profile_of_players. cbn [shape tab fst]. destruct Hc as [Hl _]. now rewrite consistent_shape0, Hl. Qed.
+
+(* rebuilding the players from the profile array gives the same game *)
+Lemma players_roundtrip_players : players_of_profile d (profile_of_players d g) = Some g.
+Proof.
+  destruct Hc as [Hl [Hp H]].
+  rewrite (players_of_profile_some _ nums profile_array_shape Hp). f_equal. symmetry.
+  apply game_ext; [assumption|]. intros i Hi. destruct (H i Hi) as [Es Hw].
+  apply arr_ext with (d := d); [assumption | apply wf_tab | |].
+  - unfold transpose_cyc, take_last. cbn [shape tab fst]. now rewrite profile_array_shape, removelast_snoc.
+  - intros b Hb. rewrite Es in Hb.
+    assert (Hlb : length b = length nums) by (rewrite (inr_length _ _ Hb); apply length_rotl).
+    rewrite get_transpose_cyc.
+    + rewrite get_take_last.
+      * rewrite profile_array_get; auto.
+        -- unfold payoff. now rewrite rotl_rotr by lia.
+        -- replace nums with (rotr i (rotl i nums)) by (apply rotr_rotl; lia). now apply inr_rotr.
+      * rewrite profile_array_shape, removelast_snoc.
+        replace nums with (rotr i (rotl i nums)) by (apply rotr_rotl; lia). now apply inr_rotr.
+    + unfold take_last. cbn [shape tab fst]. rewrite profile_array_shape, removelast_snoc. lia.
+    + unfold take_last. cbn [shape tab fst]. now rewrite profile_array_shape, removelast_snoc.
+Qed.
+End Views.
+
+(* the profile array rebuilt from the players of a profile array is that array *)
+Lemma players_roundtrip_profile prof nums g : wf prof -> shape prof = nums ++ [length nums] -> 0 < length nums ->
+  players_of_profile d prof = Some g -> profile_of_players d g = prof.
+Proof.
+  intros Hw Hs Hp E. rewrite (players_of_profile_some _ _ Hs Hp) in E. injection E as <-.
+  pose proof (from_profile_consistent prof nums Hs Hp) as Hc.
+  apply arr_ext with (d := d); [apply wf_tab | assumption | |].
+  - now rewrite (profile_array_shape _ _ Hc).
+  - intros idx Hi. rewrite (profile_array_shape _ _ Hc) in Hi.
+    apply inr_snoc_inv in Hi. destruct Hi as [a [i [-> [Ha Hi]]]].
+    rewrite (profile_array_get _ _ Hc) by assumption. now apply from_profile_payoff.
+Qed.
+
+(* ------------------------------------------------------------------ __setitem__ *)
+Lemma get_aset (a : arr T) idx v b : inr (shape a) b ->
+  get d (aset d a idx v) b = if nats_eq b idx then v else get d a b.
+Proof. intros H. unfold aset. now rewrite get_tab. Qed.
+
+Section SetItem.
+Variables (g : game T) (nums : list nat) (a : list nat) (v : list T).
+Hypothesis Hc : consistent g nums.
+Hypothesis Ha : inr nums a.
+Hypothesis Hv : length v = length nums.
+Let g' := nfg_setitem d g a v.
+
+Lemma setitem_consistent : consistent g' nums.
+Proof.
+  destruct Hc as [Hl [Hp H]]. unfold consistent, g', nfg_setitem. rewrite map_length, seq_length, Hl.
+  repeat split; auto.
+  - rewrite player_map by assumption. unfold aset. cbn [shape tab fst]. now apply H.
+  - rewrite player_map by assumption. apply wf_tab.
+Qed.
+
+Lemma setitem_payoff b i : inr nums b -> i < length nums ->
+  payoff g' b i = if nats_eq b a then nth i v d else payoff g b i.
+Proof.
+  intros Hb Hi. destruct Hc as [Hl [Hp H]]. unfold payoff, g', nfg_setitem. rewrite Hl.
+  rewrite player_map by assumption. destruct (H i Hi) as [Es _].
+  rewrite get_aset by (rewrite Es; now apply inr_rotl).
+  destruct (nats_eq (rotl i b) (rotl i a)) eqn:E1; destruct (nats_eq b a) eqn:E2; try reflexivity.
+  - apply nats_eq_iff in E1. apply rotl_inj in E1.
+    + apply nats_eq_iff in E1. congruence.
+    + now rewrite (inr_length _ _ Hb), (inr_length _ _ Ha).
+    + rewrite (inr_length _ _ Hb). lia.
+  - apply nats_eq_iff in E2. subst b. assert (nats_eq (rotl i a) (rotl i a) = true) by now apply nats_eq_iff.
+    congruence.
+Qed.
+
+Lemma setitem_getitem_same : nfg_getitem d g' a = v.
+Proof.
+  pose proof setitem_consistent as Hc'. destruct Hc' as [Hl' _].
+  unfold nfg_getitem. rewrite Hl'. symmetry. apply map_seq_ext_nth with (d := d); [assumption|].
+  intros i Hi. change (nth i v d = payoff g' a i). rewrite setitem_payoff by assumption.
+  assert (E : nats_eq a a = true) by now apply nats_eq_iff. now rewrite E.
+Qed.
+
+Lemma setitem_getitem_other b : inr nums b -> b <> a -> nfg_getitem d g' b = nfg_getitem d g b.
+Proof.
+  intros Hb Hne. pose proof setitem_consistent as Hc'. destruct Hc' as [Hl' _]. destruct Hc as [Hl _].
+  unfold nfg_getitem. rewrite Hl', Hl. apply map_ext_in. intros i Hi. apply in_seq in Hi.
+  change (payoff g' b i = payoff g b i). rewrite setitem_payoff by (auto; lia).
+  destruct (nats_eq b a) eqn:E; [|reflexivity]. apply nats_eq_iff in E. contradiction.
+Qed.
+End SetItem.
+End Game.
